@@ -239,7 +239,11 @@ C03_CORPUS = [
     ("d7", {"dependencies": {"a": []}}, {"a": 1}),
     ("d7", {"required": []}, {}),
     ("d7", {"patternProperties": {"": {}}, "additionalProperties": False}, {"a": 1}),
-]
+    ("d7", {"patternProperties": {"^x-": {}, "(?i)^data-": {}}, "additionalProperties": False}, {"DATA-a": 1, "x-b": 2, "q": 3}),
+    ("d4", {"patternProperties": {"(?P<n>a)b": {}, "(?P<n>c)d": {}}, "additionalProperties": {"type": "integer"}}, {"ab": 1, "zz": "s"}),
+    ("d3", {"patternProperties": {"(a)\\1": {}, "(b)\\1": {}}, "additionalProperties": False}, {"bb": 1}),
+] + [(t, {k: 0}, 0) for t, k in (("d3", "divisibleBy"), ("d4", "multipleOf"), ("d6", "multipleOf"), ("d7", "multipleOf"))] \
+  + [(t, {k: 0.0}, 1.5) for t, k in (("d3", "divisibleBy"), ("d4", "multipleOf"), ("d6", "multipleOf"), ("d7", "multipleOf"))]
 
 
 def c03(ctx):
@@ -405,6 +409,17 @@ def c04(ctx):
         res.note(khash(case), True, case)
         res.distribution["accepted" if ok else "rejected"] += 1
         # ---- monitor on the implementation
+        # history: a call with a Python-`==`-equal twin of the schema (True <-> 1, 1 <-> 1.0) comes first
+        if ctx.r.random() < 0.4:
+            twin = py_equal_twin(ctx, schema)
+            if twin is not None:
+                try:
+                    with warnings.catch_warnings():
+                        warnings.simplefilter("ignore")
+                        V.validate(inst, twin, cls=cls)
+                except Exception:       # noqa: BLE001
+                    pass
+                res.distribution["twin-history"] += 1
         fails = c04_monitor(cls, tag, schema, inst, fc, ok)
         for sig, what in fails:
             res.fail(sig, what, case)
@@ -427,6 +442,31 @@ def c04(ctx):
             d = corr.diff(mm, i)
             if d:
                 res.disagree("MOD", c, mm, i, d)
+
+
+def py_equal_twin(ctx, schema):
+    """a copy that Python's == cannot tell from the schema but JSON can: some True/1/1.0 swapped"""
+    twin = copy.deepcopy(schema)
+    spots = []
+
+    def walk(x):
+        if isinstance(x, dict):
+            for k, v in x.items():
+                if v is True or (isinstance(v, (int, float)) and not isinstance(v, bool) and v in (0, 1)):
+                    spots.append((x, k))
+                walk(v)
+        elif isinstance(x, list):
+            for i, v in enumerate(x):
+                if v is True or v is False or (isinstance(v, (int, float)) and not isinstance(v, bool) and v in (0, 1)):
+                    spots.append((x, i))
+                walk(v)
+    walk(twin)
+    if not spots:
+        return None
+    c, k = ctx.r.choice(spots)
+    v = c[k]
+    c[k] = (1 if v is True else 0 if v is False else bool(v) if ctx.r.random() < 0.6 else float(v))
+    return twin
 
 
 def schema_dollar_ok(schema):
@@ -622,7 +662,8 @@ def c05(ctx):
             for k in schema:
                 sub = {kk: schema[kk] for kk in schema if kk == k or kk in siblings_of(tag, k) or kk == idk}
                 pe, ps = impl.consume(cls(sub).iter_errors(inst), None)
-                parts.extend(impl.err_json(e) for e in pe if (e.schema_path and e.schema_path[0] == k) or k == "if" or e.validator is None)
+                parts.extend(impl.err_json(e) for e in pe
+                             if (e.schema_path and e.schema_path[0] == k) or (k == "if" and e.schema_path and e.schema_path[0] in ("then", "else")))
             nontrivial = len(wj) >= 1 and len(schema) >= 2
             res.note(khash(case), nontrivial, case)
             res.distribution["errors=%d" % min(len(wj), 5)] += 1
@@ -1575,6 +1616,13 @@ def c20(ctx):
             res.fail("selection:default", "no $schema selected %r" % (vf,), case)
         if want == "unknown" and vf[0] != "raised" and not (vf[0] == CLASS_TAG[V._LATEST_VERSION] and vf[1]):
             res.fail("selection:unknown", "unknown $schema %r selected %r" % (uri, vf), case)
+        if want == "unknown" and vf[0] != "raised":
+            with warnings.catch_warnings():
+                warnings.simplefilter("ignore")
+                for dt in DRAFT_TAGS:
+                    if V.validator_for(schema, default=impl.DRAFTS[dt]) is not V._LATEST_VERSION:
+                        res.fail("selection:unknown-uses-caller-default", "an unrecognised $schema selected the caller's default %s instead of the latest draft" % dt, case)
+                        break
         if want == "default" and isinstance(schema, (dict, bool)):
             with warnings.catch_warnings():
                 warnings.simplefilter("ignore")
@@ -1620,6 +1668,66 @@ def c20(ctx):
                 res.disagree("MOD", case, m, i, d)
 
 
+def c20_registrations(ctx):
+    """sequences of additional registrations: a class registered later becomes selectable by its own
+    metaschema id, validate() follows validator_for() at every point of the history, and the
+    existing registrations are not disturbed (process-global registries are restored afterwards)"""
+    res = ctx.res
+    from jsonschema import _validators
+    for n in range(ctx.n(60)):
+        saved_v = dict(V.validators)
+        saved_m = dict(V.meta_schemas.store)
+        try:
+            uri = "http://example.org/house-%d-%d/schema#" % (ctx.seed, n)
+            spelling = ctx.r.choice([uri, uri.rstrip("#"), uri.rstrip("#") + "#"])
+            body = ctx.r.choice([{"const": 1}, {"type": "integer"}, {"minimum": 3}])
+            schema = dict(body)
+            schema["$schema"] = spelling
+            inst = ctx.r.choice([1, 2, "x", 5])
+            case = {"schema": schema, "inst": inst, "registered_id": uri}
+            res.note(khash(["reg", case]), True, case)
+
+            def outcome(s=schema, i=inst):
+                with warnings.catch_warnings(record=True) as w:
+                    warnings.simplefilter("always")
+                    try:
+                        V.validate(i, s)
+                        r = "valid"
+                    except E.ValidationError:
+                        r = "invalid"
+                    except E.SchemaError:
+                        r = "schema-error"
+                    return r, any("metaschema" in str(x.message) for x in w)
+            # before: unknown -> latest draft, with a warning, every time
+            for rep in range(2):
+                got = outcome()
+                sel = V._LATEST_VERSION
+                want = "valid" if sel(schema).is_valid(inst) else "invalid"
+                if got != (want, True):
+                    res.fail("selection:unknown-history:%d" % rep, "validate() under an unknown $schema gave %r, expected %r with a warning" % (got, (want, True)), case)
+            # register a class that accepts everything for the body's keyword
+            kw = next(iter(body))
+            House = V.create(meta_schema={"$id": uri, "type": "object"}, validators={kw: lambda v, x, i, s: None},
+                             version="house%d" % n)
+            with warnings.catch_warnings():
+                warnings.simplefilter("ignore")
+                if V.validator_for(schema) is not House:
+                    res.fail("selection:registered-later", "a class registered later is not selected by its metaschema id", case)
+                for t in DRAFT_TAGS:
+                    mid = impl.DRAFTS[t].ID_OF(impl.DRAFTS[t].META_SCHEMA)
+                    if V.validator_for({"$schema": mid}) is not impl.DRAFTS[t]:
+                        res.fail("selection:registration-disturbed", "registering %r disturbed the registration of %s" % (uri, t), case)
+            got = outcome()
+            if got != ("valid", False):
+                res.fail("validate-vs-selected:after-registration",
+                         "after registering a class for %r validate() gave %r although validator_for() selects the new class (which accepts)" % (uri, got), case)
+        finally:
+            V.validators.clear()
+            V.validators.update(saved_v)
+            V.meta_schemas.store.clear()
+            V.meta_schemas.store.update(saved_m)
+
+
 # ---------------------------------------------------------------------------------------------
 
 PLANS = {}
@@ -1661,7 +1769,12 @@ plan("C15", c15, assumptions=A_COMMON + ["A-handlers", "A-url"],
      rule="schemas referring to external documents through several fragments and spellings x histories x {cache_remote on/off} x {lru 1024, pass-through, lru 1} x failing handlers; non-trivial = at least one external document")
 plan("C17", c17, assumptions=A_COMMON,
      rule="error lists of real validations (accepted schemas, four drafts) presented in all permutations (<= 4 errors) or 8 sampled ones; tree statements checked on the implementation, tree shape and lookups compared with the model; non-trivial = at least two errors")
-plan("C20", c20, assumptions=A_COMMON + ["A-url: urlsplit(u).geturl() as oracle"],
+def c20_all(ctx):
+    c20(ctx)
+    c20_registrations(ctx)
+
+
+plan("C20", c20_all, assumptions=A_COMMON + ["A-url: urlsplit(u).geturl() as oracle"],
      rule="$schema spellings (each registered id with/without '#', unknown URIs, non-URIs, absent, boolean schemas) x bodies on which the drafts disagree x instances; every case non-trivial")
 
 
@@ -1669,7 +1782,9 @@ import chan_fmt     # noqa: E402
 import chan_cli     # noqa: E402
 import chan_sys     # noqa: E402
 import chan_der     # noqa: E402
+import chan_ref     # noqa: E402
 
+plan("C02", chan_ref.campaign, **chan_ref.PLAN)
 plan("C12", chan_fmt.c12, **chan_fmt.PLAN12)
 plan("C13", chan_fmt.c13, **chan_fmt.PLAN13)
 plan("C16", chan_der.campaign, **chan_der.PLAN)
